@@ -246,10 +246,10 @@ func cmdC07(args []string) {
 					must = append(must, pt)
 				case "iter", "visit":
 					if *prof == "C11" {
-		p.Name = "C07-C11"
-		p.Copy, p.Set, p.Get, p.GetI, p.Revert, p.Iter, p.MaxColls = 12, 40, 2, 2, 1, 0, 3
-	}
-	if *prof == "C18" {
+						p.Name = "C07-C11"
+						p.Copy, p.Set, p.Get, p.GetI, p.Revert, p.Iter, p.MaxColls = 12, 40, 2, 2, 1, 0, 3
+					}
+					if *prof == "C18" {
 						must = append(must, pt)
 					} else {
 						rest = append(rest, pt)
@@ -308,6 +308,13 @@ func cmdC07(args []string) {
 						case 2:
 							// FlushRevert straight after the failed Flush: back to the flush before
 							// the last completed one, whatever the failed one left in the file
+							// README: FlushRevert on the main store invalidates its active snapshots and
+							// the application must stop using them, so they are closed first (as the
+							// history generator does before every revert)
+							for _, sid := range openSnapshotsOf(base[:i], f[1]) {
+								cl := "close " + sid
+								emit(cl, w.Exec(cl))
+							}
 							rl := "revert " + f[1]
 							emit(rl, w.Exec(rl))
 							nl := "names " + f[1]
@@ -365,6 +372,32 @@ func cmdC07(args []string) {
 	if dead {
 		os.Exit(3)
 	}
+}
+
+// openSnapshotsOf lists, in creation order, the snapshots (transitively) taken from store sid in
+// the given prefix of a history that have not been closed or dropped in it.
+func openSnapshotsOf(lines []string, sid string) []string {
+	from := map[string]bool{sid: true}
+	var out []string
+	gone := map[string]bool{}
+	for _, l := range lines {
+		t := strings.Fields(l)
+		switch {
+		case len(t) == 3 && t[0] == "snap" && from[t[1]]:
+			from[t[2]] = true
+			out = append(out, t[2])
+			delete(gone, t[2])
+		case len(t) == 2 && (t[0] == "close" || t[0] == "drop"):
+			gone[t[1]] = true
+		}
+	}
+	var res []string
+	for _, s := range out {
+		if !gone[s] {
+			res = append(res, s)
+		}
+	}
+	return res
 }
 
 func extraCommand(name string, args []string) bool {
